@@ -183,6 +183,12 @@ func verifValue(name string) []byte {
 		l = verifParam("vbig") // around a block payload (set per job)
 	case 3:
 		l = verifParam("vbig2")
+		if l < 0 {
+			// a symbolic length in [0, -vbig2]: the solver enumerates every feasible value
+			l = verifInt(name + "-symlen")
+			verifAssume(l >= 0)
+			verifAssume(l <= -verifParam("vbig2"))
+		}
 	case 4:
 		l = verifParam("vbig3")
 	}
